@@ -35,6 +35,10 @@ Seeded changes /verif/seeded/C20-{1,2,3} (all exit 1):
                                                                     address cell respelled 4 octets / 16 octets IPv4-mapped / mapped with family,
                                                                     prefix+96 or gateway type following; verdict on the packed octets)
 
+  C20-9 single-pass Dedup that never deletes from the scratch map  GEN dedup/reused-map:after-a-call-that-removed-duplicates:count|ttl|earlier-result-ttl
+                                                                    (mode "seqs": two calls in a row with nil / fresh / ONE re-used map, each result
+                                                                    judged on its own argument); TV dedup/reused-map:...:trace
+
 Mutants (checks/mutants/C20), all exit 1 (stage = where the evidence shows the discrepancy):
   mx-preference-omitted.diff     one field dropped from a generated isDuplicate   GEN isduplicate/false-positive:mx:value:preference ; TV (pairs, sweep one-octet)
   soa-mbox-case-sensitive.diff   a name compared with !=                          GEN isduplicate/false-negative:soa:name-case:mbox ; TV not within 6 000 random events
@@ -62,7 +66,8 @@ def gen(ctx, binp, nlist, nshards):
         if not os.path.exists(p):
             raise vp.Infra("Gen_Dup %s exported nothing" % mode)
         paths.append(p)
-    vp.parallel([lambda: g("pairs", 0), lambda: g("triples", 0), lambda: g("lists", nlist), lambda: g("octets", 0)], maxpar=4)
+    vp.parallel([lambda: g("pairs", 0), lambda: g("triples", 0), lambda: g("lists", nlist), lambda: g("octets", 0),
+                 lambda: g("seqs", 2 if ctx.quick else 3)], maxpar=5)
     allp = os.path.join(ctx.out, "vectors-all.ndjson")
     n = 0
     with open(allp, "w") as f:
@@ -85,6 +90,9 @@ def kind_key(k):
 
 def trace_key(e):
     if e["ev"] == "dedup":
+        h = e.get("rel", "")
+        if h.startswith("reused-map:") and not h.endswith("first-use"):
+            return "dedup/%s:trace" % h
         return "dedup/trace:" + kind_key(e["k"])
     k = kind_key(e["k"])
     if not e["self"] and e["never"]:
